@@ -142,7 +142,9 @@ def quadratic_spline(
 
     if inverse:
         c_ = c - inputs
-        alpha = (-b + torch.sqrt(b.pow(2) - 4 * a * c_)) / (2 * a)
+        # Numerically stable form of the root (-b + sqrt(b^2 - 4ac)) / 2a, which is also valid
+        # for a == 0 (equal heights on both sides of a bin: the piece is a straight line).
+        alpha = (-2 * c_) / (b + torch.sqrt(b.pow(2) - 4 * a * c_))
         outputs = alpha * input_bin_widths + input_bin_locations
         outputs = torch.clamp(outputs, 0, 1)
         logabsdet = -torch.log(
